@@ -29,9 +29,9 @@ type gscen struct {
 	Input               string // small, big, empty, corrupt, truncated
 	Existing            bool   // target pre-exists
 	Preset              string
-	Rel                 bool // the file is named relative to the working directory, after "--"
-	Link                bool // the pre-existing target is a symbolic link to the input
-	Extra               bool // a second input file, named like the temporary file of the first, is given as second argument
+	Rel                 bool   // the file is named relative to the working directory, after "--"
+	Link                bool   // the pre-existing target is a symbolic link to the input
+	Extra               bool   // a second input file, named like the temporary file of the first, is given as second argument
 	Alias               string // gxz is called by this name (a symbolic link); the flags the name implies are not given
 }
 
